@@ -526,6 +526,11 @@ def op_src(cfg, op):
         return "B = list(deepcopy(WorkerPools([A])).worker_pools)[0]"
     if k == "step":
         return "_ret = %s.step(ZERO)" % X
+    if k == "view":
+        # the read-only views the simulator and the policies take of a cluster (utilisation logging, fit tests)
+        if cfg.kind == "pool":
+            return "_ret = (str(%s.resources), %s.get_utilization(), %s.is_full(), len(%s.get_placed_tasks()))" % (X, X, X, X)
+        return "_ret = (str(%s.resources), %s.is_full(), len(%s.get_placed_tasks()), len(%s.get_available_profiles()))" % (X, X, X, X)
     pool = cfg.kind == "pool"
     if k == "place":
         if pool and op[4] is not None:
@@ -550,7 +555,7 @@ def op_name(cfg, op, scope):
     if cfg.level == 1:
         return {"alloc": "allocate", "multi": "allocate_multiple", "dealloc": "deallocate",
                 "copy": "Resources.__copy__", "deepcopy": "Resources.__deepcopy__"}[k]
-    base = {"place": "place_task", "remove": "remove_task", "load": "load_profile", "evict": "evict_profile", "step": "step"}
+    base = {"place": "place_task", "remove": "remove_task", "load": "load_profile", "evict": "evict_profile", "step": "step", "view": "read_only_views"}
     if k in base:
         return ("WorkerPool." if scope == "pool" else "") + base[k]
     deep = k.startswith("deep")
@@ -567,7 +572,7 @@ def repo_fn(cfg, op):
     if k in ("copyP", "deepcopyP"):
         return "WorkerPools." + ("__deepcopy__" if k.startswith("deep") else "__copy__")
     return cls + "." + {"place": "place_task", "remove": "remove_task", "load": "load_profile", "evict": "evict_profile", "step": "step",
-                        "copy": "__copy__", "deepcopy": "__deepcopy__"}[k]
+                        "copy": "__copy__", "deepcopy": "__deepcopy__", "view": "resources/get_utilization/is_full/get_placed_tasks"}[k]
 
 
 # --------------------------------------------------------------------------------------------
@@ -758,6 +763,8 @@ def next_ops(cfg, hist, L):
                         ops.append(("load", X, p, l, wi))
                 ops.append(("evict", X, p, wi))
         ops.append(("step", X))
+        if ledger_nonempty(L):
+            ops.append(("view", X))
     if "B" not in L:
         ops.append(("copy", "A"))
         ops.append(("deepcopy", "A"))
@@ -789,7 +796,7 @@ def must_succeed(cfg, op, L):
     if k == "evict":
         tg = target_workers(cfg, op[3] if cfg.kind == "pool" else None)
         return all((op[2] in il["W"][j]["pend"] or op[2] in il["W"][j]["avail"]) for j in tg)
-    return k in ("copy", "deepcopy", "copyP", "deepcopyP", "step")
+    return k in ("copy", "deepcopy", "copyP", "deepcopyP", "step", "view")
 
 
 def drain_ops(cfg, L):
@@ -846,6 +853,11 @@ def transition(cfg, op, out, L, before, after):
         L["Bkind"] = k
         return None
     il = L[X]
+    if k == "view":
+        if before != after:
+            return ("pool" if cfg.kind == "pool" else "worker", "changed_state", "BEFORE == AFTER", True, "reading the cluster changed it: %s" % diff_text(before, after),
+                    "taking a read-only view of a cluster (resources, utilisation, fullness, placed tasks) changes nothing observable")
+        return None
     if k == "alloc":
         n, _i = cfg.reqs[op[2]]
         d = il["W"][0]["raw"].setdefault(op[3], {})
@@ -992,7 +1004,7 @@ def evaluate(cfg, hist, pledger, mode, seed, world=None):
                          demand=demand, saw="state after the refused operation differs from the state before: %s" % diff_text(before, after),
                          want="identical observations before and after")
         elif out[0] == "raise" and must_succeed(cfg, op, L) and mode == "C04":
-            hwhat = dict(scope="worker", id=op_name(cfg, op, "pool" if cfg.kind == "pool" else "worker") + (".raised" if op[0] in ("copy", "deepcopy", "copyP", "deepcopyP", "step") else ".refused_for_resident"),
+            hwhat = dict(scope="worker", id=op_name(cfg, op, "pool" if cfg.kind == "pool" else "worker") + (".raised" if op[0] in ("copy", "deepcopy", "copyP", "deepcopyP", "step", "view") else ".refused_for_resident"),
                          expr="OUT[-1][0] == 'raise'", demand="the operation removes/evicts/deallocates a holder that is resident (or copies a cluster), so it must succeed",
                          saw=out[1], want="no exception")
         elif out[0] == "raise" and op[0] == "place" and can is True and not batch_full(cfg, op, L) and mode == "C04":
